@@ -151,6 +151,12 @@ Definition pr_with_errno (e : Z) (p : proc) : proc :=
      pr_rlimit := pr_rlimit p; pr_state := pr_state p; pr_image := pr_image p;
      pr_script := pr_script p; pr_wake := pr_wake p; pr_woff := pr_woff p;
      pr_seen := pr_seen p; pr_end := pr_end p |}.
+Definition pr_with_rlimit (n : Z) (p : proc) : proc :=
+  {| pr_parent := pr_parent p; pr_kind := pr_kind p; pr_fds := pr_fds p; pr_mask := pr_mask p;
+     pr_disp := pr_disp p; pr_cwd := pr_cwd p; pr_env := pr_env p; pr_errno := pr_errno p;
+     pr_rlimit := n; pr_state := pr_state p; pr_image := pr_image p;
+     pr_script := pr_script p; pr_wake := pr_wake p; pr_woff := pr_woff p;
+     pr_seen := pr_seen p; pr_end := pr_end p |}.
 Definition pr_with_state (s : pstate) (p : proc) : proc :=
   {| pr_parent := pr_parent p; pr_kind := pr_kind p; pr_fds := pr_fds p; pr_mask := pr_mask p;
      pr_disp := pr_disp p; pr_cwd := pr_cwd p; pr_env := pr_env p; pr_errno := pr_errno p;
